@@ -26,6 +26,8 @@ for name, m in rows:
     caught = re.findall(r'(C\d\d) (?:quick|exit)', ' '.join(cr))
     strengthened = 'yes - ' + cr[0].split(':',1)[1].strip()[:160] if len(cr) > 1 else 'no'
     who = sorted(set(re.findall(r'(C\d\d)[^;]*?exit 1', ' '.join(cr)))) or [m['property']]
+    if 'NOT DETECTED' in ' '.join(cr) and 'exit 1' not in ' '.join(cr):
+        who, strengthened = ['none (not detected)'], 'no - ' + cr[0].split(':',1)[1].strip()[:200]
     tab.append('| %s | %s | %s | %s |' % (name, m['property'], ', '.join(who), strengthened.replace('|','/')))
 tab.append('<!-- SEEDED-TABLE-END -->')
 block = '\n'.join(tab)
